@@ -254,6 +254,40 @@ func registerMisc(e *Engine) {
 		}
 		return nil, nil
 	})
+	// io.Copy(io.Discard, r): read r until it fails; EOF is not an error
+	e.reg("(io.discard).ReadFrom", func(ex *Exec, fn *ssa.Function, args []Value) (Value, *PanicV) {
+		c := ex.ctx
+		r := args[1].(IfaceV)
+		buf := ex.newByteSlice(ex.baseNode("discard"), c64(c, 8192), c64(c, 8192))
+		total := c64(c, 0)
+		for i := 0; i < 64; i++ {
+			v, pan, ok := ex.callMethod(r, "Read", buf)
+			if pan != nil {
+				return nil, pan
+			}
+			if !ok {
+				ex.unsupported("discard.ReadFrom: reader without Read")
+			}
+			tv := v.(TupleV)
+			total = c.Add(total, tv[0].(*Term))
+			err := tv[1].(IfaceV)
+			if err.typ != nil {
+				if ex.branch(ex.valueEq(err, ex.ioEOF())) {
+					return TupleV{total, nilErr()}, nil
+				}
+				return TupleV{total, err}, nil
+			}
+		}
+		panic(pathEnd{kind: "unwind", msg: "discard.ReadFrom: more than 64 reads"})
+	})
+	e.reg("flag.Bool", func(ex *Exec, fn *ssa.Function, args []Value) (Value, *PanicV) {
+		o := ex.newObj(args[1], "flag.Bool")
+		return Ptr{obj: o}, nil
+	})
+	e.reg("flag.String", func(ex *Exec, fn *ssa.Function, args []Value) (Value, *PanicV) {
+		o := ex.newObj(args[1], "flag.String")
+		return Ptr{obj: o}, nil
+	})
 	e.reg("runtime.Gosched", func(ex *Exec, fn *ssa.Function, args []Value) (Value, *PanicV) {
 		ex.envHook("gosched")
 		return nil, nil
@@ -264,10 +298,24 @@ func registerMisc(e *Engine) {
 	})
 	// ----- randomness -----
 	csr := repoMod + "/common/csrand"
+	e.reg(rtPkg+".OnRandBytes", func(ex *Exec, fn *ssa.Function, args []Value) (Value, *PanicV) {
+		ex.st["onrandbytes"] = args[0]
+		return nil, nil
+	})
 	e.reg(csr+".Bytes", func(ex *Exec, fn *ssa.Function, args []Value) (Value, *PanicV) {
 		ex.noteImpure("csrand.Bytes")
 		s := args[0].(SliceV)
 		if isZero(s.len) {
+			return nilErr(), nil
+		}
+		if cb, ok := ex.st["onrandbytes"].(Value); ok && cb != nil {
+			r, pan := ex.callAny(cb, []Value{s.len}, nil)
+			if pan != nil {
+				return nil, pan
+			}
+			src := r.(SliceV)
+			ex.tape = append(ex.tape, Draw{Name: "rand_bytes", Kind: "bytes", Node: ex.sliceRegion(src).node, Len: s.len})
+			ex.writeBytes(s, c64(ex.ctx, 0), ex.sliceRegion(src), s.len)
 			return nilErr(), nil
 		}
 		node := ex.baseNode("rnd")
